@@ -348,6 +348,8 @@ struct World {
     keyset: Arc<KeySet>,
     keyfile: Vec<u8>,
     info: NtpServerInfo,
+    /// the `Arc<RwLock<NtpServerInfo>>` both servers were built with (the daemon's system task writes to it)
+    shared: Arc<RwLock<NtpServerInfo>>,
     server: Option<Server<FixedClock>>,
     shadow: Option<Server<FixedClock>>,
     last_ip: Option<IpAddr>,
@@ -370,6 +372,7 @@ impl World {
             cfg,
             keyset: Arc::new(KeySet::new()),
             keyfile: vec![],
+            shared: Arc::new(RwLock::new(NtpServerInfo::default())),
             info: NtpServerInfo::default(),
             server: None,
             shadow: None,
@@ -379,9 +382,8 @@ impl World {
     }
 
     fn build(&mut self) {
-        let mk = |w: &World| {
-            Server::new_internal(w.cfg.clone(), w.clock.clone(), Arc::new(RwLock::new(w.info)), w.keyset.clone())
-        };
+        self.shared = Arc::new(RwLock::new(self.info));
+        let mk = |w: &World| Server::new_internal(w.cfg.clone(), w.clock.clone(), w.shared.clone(), w.keyset.clone());
         self.server = Some(mk(self));
         self.shadow = Some(mk(self));
         self.last_ip = None;
@@ -699,7 +701,7 @@ fn exec_case(ops: &[String], run: &mut Run) {
                 w.build();
                 run.end_op("ok");
             }
-            Some("cfgsrv") => {
+            Some(op @ ("cfgsrv" | "updsrv")) => {
                 let r = &words[1..];
                 let g = |k: &str| kv(r, k).expect("cfgsrv key");
                 let bloom = bloom_from_seed(g("bseed").parse().unwrap(), g("bn").parse().unwrap());
@@ -721,7 +723,12 @@ fn exec_case(ops: &[String], run: &mut Run) {
                         bloom_filter: bloom,
                     },
                 };
-                w.build();
+                if op == "cfgsrv" {
+                    w.build();
+                } else {
+                    // the synchronisation state changes under a LIVING server: only the shared state is written
+                    *w.shared.write().unwrap() = w.info;
+                }
                 // the model reads the filter bytes
                 let raw: Vec<&str> = words.iter().copied().filter(|x| !x.starts_with("bloom=")).collect();
                 let line = format!("{} bloom={}", raw.join(" "), hex(bloom.as_bytes()));
@@ -1061,6 +1068,37 @@ fn oracle(run: &mut Run, w: &World, rvar: f64, msg: &[u8], buf: usize, in_deny: 
         }
         if out.responded && (abs.has_cookie || kind == "nak") && !nts {
             ofail(run, "c21_nts_flag_answered", &format!("{} kind={}", attrs(abs), kind), "NTS request answered but NTS flag clear");
+        }
+    }
+    // ---------------- C18: a time answer carries the server's CURRENT stratum, leap, reference id and root delay
+    // (the shared state as it was when `handle` was called — it may have changed since the previous request)
+    if kind == "time" {
+        if let Some(p) = &out.parsed {
+            let h = &p.header;
+            let info = &w.info;
+            let v = (h[0] >> 3) & 7;
+            if h[1] != info.ntp_snapshot.stratum {
+                ofail(run, "c18_current_info", &attrs(abs), &format!("stratum {} but the current stratum is {}", h[1], info.ntp_snapshot.stratum));
+            }
+            if v != 5 {
+                let want_leap = match info.time_snapshot.leap_indicator {
+                    NtpLeapIndicator::NoWarning => 0,
+                    NtpLeapIndicator::Leap61 => 1,
+                    NtpLeapIndicator::Leap59 => 2,
+                    _ => 3,
+                };
+                if h[0] >> 6 != want_leap {
+                    ofail(run, "c18_current_info", &attrs(abs), &format!("leap bits {} but the current leap indicator encodes as {}", h[0] >> 6, want_leap));
+                }
+                if h[12..16] != info.ntp_snapshot.reference_id.to_bytes() {
+                    ofail(run, "c18_current_info", &attrs(abs), "reference id is not the current one");
+                }
+                if h[4..8] != info.time_snapshot.root_delay.to_bits_short() {
+                    ofail(run, "c18_current_info", &attrs(abs), "root delay is not the current one");
+                }
+            } else if h[4..8] != info.time_snapshot.root_delay.to_bits_time32() {
+                ofail(run, "c18_current_info", &attrs(abs), "root delay is not the current one");
+            }
         }
     }
     // ---------------- C18 (reflection): every field of the answer is a uid of the request, a refid response, draft id, padding or a fresh cookie
@@ -1733,7 +1771,7 @@ fn gen_case_with(rng: &mut Rng, idx: u64, malformed: bool, hostile_info: bool) -
             .join(" ");
     }
     let keyset = load_keyset(&file);
-    let (mut srvline, vbt) = gen_cfgsrv(rng, hostile_info);
+    let (mut srvline, mut vbt) = gen_cfgsrv(rng, hostile_info);
     if !malformed && idx == 2 {
         // F-C22b: positive variance slope, zero base: negative variance one second before the base time
         srvline = format!(
@@ -1857,6 +1895,14 @@ fn gen_case_with(rng: &mut Rng, idx: u64, malformed: bool, hostile_info: bool) -
             alg,
             hex(&msg)
         ));
+        // the synchronisation state changes between two requests to the SAME server (the daemon's system task
+        // writes the shared state while the server task lives on): stratum, leap, reference id, root delay …
+        if !malformed && idx > 6 && k + 1 < nreq && rng.chance(1, 2) {
+            let (line, nvbt) = gen_cfgsrv(rng, hostile_info);
+            vbt = nvbt;
+            ops.push(line.replacen("cfgsrv", "updsrv", 1));
+        }
+
     }
     ops
 }
